@@ -32,6 +32,8 @@ NAMED = ["C:\\temp\\new.csv", "/usr/share/data.csv", "He said \"hi\"", "it's", "
          "line1\nline2", "ends\\", "=(", "True", "5", "1e-05", "x" * 60, "\\n", "\\\\server\\share",
          "Habitat score \U0001f600", "\U0001d11e\U00020000", "\u4e2d\u6587", "\x00\x07\x1b", "\x7f\x80\xff", "\u2028 sep", "True Color",
          # invisible / formatting characters that text tools like to strip: byte-order mark (inside a value), zero-width and no-break spaces, soft hyphen
+         # a backslash in front of the letters that start an escape sequence (\U \u \x \N ...): Windows paths, share names, column names
+         "C:\\Users\\alice\\data.csv", "\\\\server\\gis\\Nevada\\unit7\\xsections", "raw\\units", "\\N", "\\x4", "\\u12", "a\\", "\\0", "\\a\\b\\f\\v\\r",
          "\ufeffelev", "a\ufeffb", "end\ufeff", "\u200bzw", "nb\u00a0sp", "soft\u00adhyphen", "\u2060wj", "\ufffd"]
 INTS = [0, 1, -1, 7, -12, 10 ** 6, 2 ** 53, -(2 ** 63), 10 ** 22]
 FLOATS = [0.5, -0.0, 0.0, 1e-05, 1.5e-07, 1e22, 1e300, 123456789.125, -2.5, 1e16, 1.0, 5e-324, float("inf"), float("-inf"), float("nan"), 0.1, 1 / 3.0]
